@@ -96,7 +96,9 @@ CHECKS = {
              "before the iteration limit the request is met or nothing more is feasible (both within FLOAT_ACCURACY); "
              "per-round shares are proportional to allocation and bounded. Tie: exact correspondence incl. the "
              "iteration-limit message and ZeroDivisionError, with arcs connected after the node has been used; implementation monitor incl. "
-             "the proportional-share clause, feasibility asked of the arcs one by one; probes on whole models: a pull over any arc returns no more than asked.",
+             "the proportional-share clause, feasibility asked of the arcs one by one; probes on whole models: a pull over any arc returns no more than asked. "
+             "Distribution with leakage (Leak.v, family leak): at most the request when the leak is placed (theorem); the open finding "
+             "(unplaced leak handed to the consumer) has a model witness in Refuted.v replayed on the implementation.",
         design="5/C18", tech="Coq proof (induction over arcs and over the bounded redistribution loop, contract-parametric) over a hand-written model + exact-rational correspondence",
         note=NOTE + "The model visits arcs in creation order (see trusted base in the evidence); of_type given as a bare string (substring test in the single-arc path) is not modelled."),
     "C01": dict(
